@@ -47,7 +47,7 @@ PROPS = {
     "C07": {
         "module": "FBV.Props.C07b",
         "theorems": ["FBV.C07.serveZ_spec", "FBV.C07.drainZ_spec", "FBV.C07.serve_spec", "FBV.C07.drain_spec", "FBV.C07.chain_read_spec", "FBV.C07.ab_read_spec", "FBV.C02.read_frame_spec"],
-        "jobs": (lambda tier: [{"which": w, "profile": p, "args": [m], "oc": p == "dev"} for (w, m) in (("sync", "pl"), ("tokio", "apl")) for p in ("dev", "release")]),
+        "jobs": (lambda tier: [{"which": w, "profile": p, "args": [m], "oc": p == "dev"} for (w, m) in (("sync", "pl"), ("tokio", "apl"), ("sync", "big")) for p in ("dev", "release")]),
         "tie": "T2 the loop of tests/server.rs re-expressed over a scripted transport (library calls are the real ones), blocking and tokio (hand-driven polls, Pending on reads and writes)",
         "rule": ("connections of 1-3 requests `[len byte][extra][CR]LF payload` with payload lengths {0,1,2,3,5,9} (payload bytes include LF/CR), truncated at random "
                  "points or followed by undelimited garbage; short connections x EVERY chunking x SIZE {4,6,8} x 6 destination-size schedules incl. zero-length "
@@ -64,7 +64,7 @@ PROPS = {
         "theorems": ["FBV.pollLoop_outcome", "FBV.C02.read_frame_spec", "FBV.C02.read_frames_all", "FBV.C02.chunking_independent",
                      "FBV.C02.terminal_cases", "FBV.C02.line_instance", "FBV.C02.crlf_instance", "FBV.C02.null_instance",
                      "FBV.readFrameC_refines", "FBV.readFrameC_spec"],
-        "jobs": sync_jobs("rf"),
+        "jobs": (lambda tier: sync_jobs("rf")(tier) + sync_jobs("big")(tier)),
         "tie": "T2 whole read_frame scenarios: concrete model vs implementation call by call, and the specification evaluated on the implementation's results",
         "rule": RF_RULE,
         "level_text": ("Kernel-checked for every stream, every chunk schedule, every SIZE>=0, every deframer honouring the documented contract (the three "
@@ -93,7 +93,7 @@ PROPS = {
         "module": "FBV.Props.C12",
         "theorems": ["FBV.C12.no_call_when_frame_buffered", "FBV.C12.no_call_when_rejected", "FBV.C12.no_call_when_full", "FBV.C12.offers_ok", "FBV.C12.call_discipline", "FBV.C12.trace_log",
                      "FBV.C12.copy_once_from_spec", "FBV.pollLoop_outcome"],
-        "jobs": (lambda tier: [{"which": "sync", "profile": p, "args": [m], "oc": p == "dev"} for m in ("rf", "rfe", "t1") for p in ("dev", "release")]),
+        "jobs": (lambda tier: [{"which": "sync", "profile": p, "args": [m], "oc": p == "dev"} for m in ("rf", "rfe", "t1", "big") for p in ("dev", "release")]),
         "tie": "T2 reader call logs of every read_frame call + T1 copy_once_from with every reader response 0..=offered, errors, panics, scribbling",
         "rule": RF_RULE + "; plus the T1 exploration for copy_once_from",
         "level_text": ("Kernel-checked: read_frame does not touch the reader when a complete frame or rejected data is buffered or the buffer is full; every "
@@ -151,7 +151,7 @@ PROPS = {
         "theorems": ["FBV.C14.cof_drive_eq_blocking", "FBV.C14.cof_refines", "FBV.C14.cof_pending_only_if_reader", "FBV.C14.cof_conserves", "FBV.C14.cof_calls_once", "FBV.C14.cof_full",
                      "FBV.pollLoop_outcome", "FBV.C14.pending_only_if_reader_pending", "FBV.C14.drive_outcome", "FBV.C15.async_eq_blocking",
                      "FBV.C15.drive_spec", "FBV.C15.restart_eq_resume"],
-        "jobs": tokio_jobs("arf"),
+        "jobs": tokio_jobs("arf", "abig"),
         "tie": "T2 hand-driven polls of the real read_frame / copy_once_from futures over a scripted AsyncRead, every subset of reader polls Pending",
         "rule": ("every stream over {a,CR,LF} of length <=3 (quick; <=4 thorough) x every composition into chunks x every subset (<=2 quick) of reader polls "
                  "answered Pending x SIZE {1..4} x 3 deframers; seeded scenarios with pre-loaded buffers, reader errors at any poll, SIZE<=64, a rejecting "
@@ -167,7 +167,7 @@ PROPS = {
         "module": "FBV.Props.C14b",
         "theorems": ["FBV.C14.cof_drive_eq_blocking", "FBV.C14.cof_not_ok", "FBV.C14.cof_ok",
                      "FBV.C15.restart_eq_resume", "FBV.C15.pending_state", "FBV.C15.drive_spec", "FBV.pollLoop_outcome"],
-        "jobs": tokio_jobs("arfc"),
+        "jobs": tokio_jobs("arfc", "abig"),
         "tie": "T2 as C14 with every Pending a cancellation point: the future is dropped, readable() inspected, a new call started",
         "rule": ("the C14 scenarios x every non-empty subset of their pending points as cancellation points (drop the future, inspect readable(), start a new "
                  "call on the same buffer and reader); seeded scenarios with random resume/cancel choices"),
@@ -230,7 +230,7 @@ PROPS = {
                      "FBV.C05.null_none_iff", "FBV.C05.null_some", "FBV.C05.null_prefixDet", "FBV.C05.null_minimal", "FBV.C05.null_ok",
                      "FBV.C05.crlf_none_iff", "FBV.C05.crlf_some", "FBV.C05.crlf_prefixDet", "FBV.C05.crlf_minimal", "FBV.C05.crlf_ok",
                      "FBV.C05.append_stable"],
-        "jobs": sync_jobs("df"),
+        "jobs": (lambda tier: sync_jobs("df")(tier) + sync_jobs("big")(tier)),
         "tie": "T2 exact output equality of deframe_line/deframe_crlf/deframe_null with the model",
         "rule": ("every string of length <=6 (quick) / <=8 (thorough) over {CR,LF,NUL,'a',0xff}, every 1- and 2-byte string over all 256 "
                  "values, seeded random strings <=300 bytes over all 256 values with delimiters sprinkled in, each x 3 deframers; "
@@ -243,7 +243,7 @@ PROPS = {
     },
     "C01": {
         "module": "FBV.Props.C01b",
-        "theorems": ["FBV.C01.stepWV_sat", "FBV.C01.stepRV_sat", "FBV.C01.stepWF_sat", "FBV.C01.stepRE_sat", 'FBV.C01.step_sat', 'FBV.C01.sat_conserves', 'FBV.C01.fifo_history', 'FBV.C01.only_clear_discards', 'FBV.step_WInv', 'FBV.reachable_WInv'],
+        "theorems": ["FBV.C01.stepWV_sat", "FBV.C01.stepRV_sat", "FBV.C01.stepWF_sat", "FBV.C01.stepRE_sat", "FBV.C01.stepRTE_sat", 'FBV.C01.step_sat', 'FBV.C01.sat_conserves', 'FBV.C01.fifo_history', 'FBV.C01.only_clear_discards', 'FBV.step_WInv', 'FBV.reachable_WInv'],
         "level_text": "Kernel-checked: for EVERY state with ri<=wi<=SIZE, EVERY public call (all write paths, all read paths incl. deframe/io::Read/try_parse scripts, shift, clear) with EVERY argument and both overflow-check settings, the unread bytes change exactly by what the call hands out / accepts and len()/is_empty() describe them (step_sat); lifted by induction to every finite history from any constructor (fifo_history: taken ++ readable = initial ++ accepted). The model's step function is tied to the real FixedBuf transition by transition from the implementation's own observed state (exhaustive for small SIZE, random walks up to SIZE 4096), and the same executable predicate Sat_C01 is evaluated on the implementation's transitions.",
         "jobs": t1_jobs(["dev", "release"]),
         "tie": "T1 (transition-level, from the implementation's observed state)",
@@ -251,7 +251,7 @@ PROPS = {
     },
     "C03": {
         "module": "FBV.Props.C01b",
-        "theorems": ["FBV.C01.stepWV_sat", "FBV.C01.stepRV_sat", "FBV.C01.stepWF_sat", "FBV.C01.stepRE_sat", 'FBV.C03.step_sat', 'FBV.C03.history_capacity', 'FBV.step_WInv', 'FBV.reachable_WInv'],
+        "theorems": ["FBV.C01.stepWV_sat", "FBV.C01.stepRV_sat", "FBV.C01.stepWF_sat", "FBV.C01.stepRE_sat", "FBV.C01.stepRTE_sat", 'FBV.C03.step_sat', 'FBV.C03.history_capacity', 'FBV.step_WInv', 'FBV.reachable_WInv'],
         "level_text": 'Kernel-checked for every weakly well-formed state, every call, every argument, both profiles: a write of n bytes succeeds iff n<=free and shrinks the free space by exactly n; a refused write changes nothing; shift/clear/draining reads reclaim all capacity; reads, queries and failed calls never shrink the free space; len+free<=SIZE over every history. Tied to the code by the T1 transition correspondence with boundary lengths free-1, free, free+1 generated by construction.',
         "jobs": t1_jobs(["dev", "release"]),
         "tie": "T1",
@@ -259,7 +259,7 @@ PROPS = {
     },
     "C04": {
         "module": "FBV.Props.C01b",
-        "theorems": ["FBV.C01.stepWV_sat", "FBV.C01.stepRV_sat", "FBV.C01.stepWF_sat", "FBV.C01.stepRE_sat", 'FBV.C04.step_sat', 'FBV.C04.read_bytes_contract', 'FBV.C04.wrote_contract', 'FBV.C04.Legacy.legacy_wrote_silently_succeeds', 'FBV.C04.Legacy.legacy_read_bytes_unconsumes', 'FBV.C04.Legacy.legacy_wrote_dev_panics'],
+        "theorems": ["FBV.C01.stepWV_sat", "FBV.C01.stepRV_sat", "FBV.C01.stepWF_sat", "FBV.C01.stepRE_sat", "FBV.C01.stepRTE_sat", 'FBV.C04.step_sat', 'FBV.C04.read_bytes_contract', 'FBV.C04.wrote_contract', 'FBV.C04.Legacy.legacy_wrote_silently_succeeds', 'FBV.C04.Legacy.legacy_read_bytes_unconsumes', 'FBV.C04.Legacy.legacy_wrote_dev_panics'],
         "level_text": 'Kernel-checked for BOTH values of the overflow-check flag and every count n (unbounded Nat, so every usize): read_byte/read_bytes(n) panic iff n>len(), wrote(n) iff n>writable().len(), no other call panics with contract-honouring collaborators, and a panicking call (incl. a panicking reader inside copy_once_from) leaves indices and unread bytes unchanged. The correspondence runs the real code in BOTH build profiles (dev: overflow checks on; release: off) with wrap-around counts. The defect found on the pinned tree (release: wrote(usize::MAX) silently un-commits) is recorded as theorems about the legacy functions and was repaired by a fix: commit.',
         "jobs": (lambda tier: [{"which": "sync", "profile": p, "args": [m], "oc": p == "dev"} for m in ("t1", "es", "df", "chain", "take") for p in ("dev", "release")]),
         "tie": "T1 in both build profiles (overflow checks on / off); the escape / Debug, deframer and adapter explorations for panics outside FixedBuf's own methods",
@@ -269,7 +269,7 @@ PROPS = {
         "module": "FBV.Props.C10",
         "theorems": ['FBV.C10.step_sat', 'FBV.C10.deframe_general', 'FBV.dfOf_bounds', 'FBV.deframeM_eq'],
         "level_text": 'Kernel-checked for every weakly well-formed state and any deframer honouring the bounds clause: deframe changes the buffer iff the deframer reports a frame; then exactly the block is consumed (incl. the rewind when it ends at the end of the unread bytes), mem() is untouched and mem()[range] is the payload the deframer selected; empty/None/Err consume nothing. Tied by T1 with six deframers (three provided, rejecting, reject-x, length-prefixed with a payload range not starting at 0).',
-        "jobs": t1_jobs(["dev", "release"]),
+        "jobs": (lambda tier: t1_jobs(["dev", "release"])(tier) + sync_jobs("big")(tier)),
         "tie": "T1",
         "rule": T1_RULE,
     },
